@@ -119,6 +119,56 @@ Proof.
 Qed.
 
 (* ---------------------------------------------------------------------------------------------
+   Family D: OVER-LONG inclusion proofs. ahtree.VerifyInclusion demands enough terms to reach the
+   right-most path ((i-1)>>len = (j-1)>>len) but accepts any number of FURTHER terms, and
+   VerifyLastInclusion checks no length at all. Against a root that is not the root of a genuine tree
+   of the claimed size the position is therefore not unique: with
+       R = node( node(leaf a1, leaf a2), Y ),    Y = node( node(z, leaf X), leaf a3 )
+   (Y stands where leaf 3 of a size-3 tree would be, but is a subtree holding X = Alh of a forged
+   tx 2) the state (4, Alh of a header with BlTxID 3, BlRoot R) commits to BOTH a2 and X at
+   "position 2 of 3". Ordinary, non-lagging headers; VerifyDualProof (with the repair of d34d669)
+   and VerifyDualProofV2 alike. *)
+Definition e1 := mkh 1 (Hs []) 0 zeros32 1.
+Definition E1 := A e1.
+Definition e2 := mkh 2 E1 1 (lf E1) 2.                 (* the real transaction 2 *)
+Definition E2 := A e2.
+Definition e2f := mkh 2 E1 1 (lf E1) 66.               (* the forged transaction 2 *)
+Definition XD := A e2f.
+Definition e3 := mkh 3 E2 2 (nd (lf E1) (lf E2)) 3.
+Definition E3 := A e3.
+Definition zD : bytes := 90 :: repeat 0 31.
+Definition R12 := nd (lf E1) (lf E2).
+Definition YD := nd (nd zD (lf XD)) (lf E3).
+Definition RD := nd R12 YD.
+Definition e4 := mkh 4 E3 3 RD 4.
+Definition E4 := A e4.
+Definition dreal : dual_proof :=
+  {| dp_src := Some e2; dp_tgt := Some e4; dp_incl := [lf E1; YD]; dp_cons := [lf E1; lf E2; YD];
+     dp_tblalh := E3; dp_last := [nd zD (lf XD); R12]; dp_lin := lin 3 4 E3 e4; dp_lap := None |}.
+Definition dfake : dual_proof :=
+  {| dp_src := Some e2f; dp_tgt := Some e4; dp_incl := [zD; lf E3; R12]; dp_cons := [lf E1; lf E2; YD];
+     dp_tblalh := E3; dp_last := [nd zD (lf XD); R12]; dp_lin := lin 3 4 E3 e4; dp_lap := None |}.
+Definition sessionD : list call :=
+  [ {| c_proof := dreal; c_src := 2; c_tgt := 4; c_salh := E2; c_talh := E4 |};
+    {| c_proof := dfake; c_src := 2; c_tgt := 4; c_salh := XD; c_talh := E4 |} ].
+
+Ltac session_d :=
+  exists (2, E2), sessionD, 2, E2, XD; split; [|split; [|split]];
+  [ cbn [session sessionD]; unfold accepted; cbn [c_proof c_src c_tgt c_salh c_talh];
+    repeat split; try (vm_compute; reflexivity); [left; reflexivity | right; reflexivity]
+  | left; reflexivity
+  | right; vm_compute; tauto
+  | vm_compute; discriminate ].
+
+(* session consistency of VerifyDualProofV2 against an arbitrary server is refuted *)
+Theorem session_consistency_v2_refuted : session_inconsistent (verify_dual_proof_v2_call Hs).
+Proof. session_d. Qed.
+
+(* ... and of VerifyDualProof on ordinary headers too *)
+Theorem session_consistency_v1_overlong_refuted : session_inconsistent (verify_dual_proof Hs).
+Proof. session_d. Qed.
+
+(* ---------------------------------------------------------------------------------------------
    VerifyDualProofV2 with sourceTxID = targetTxID returns nil without comparing the two headers or
    the two Alh values: a forged header for the trusted transaction id is "verified".  (The only
    caller in the repository, pkg/verification.VerifyDocument, compares both Alh values with the
